@@ -125,7 +125,9 @@ var files = []string{"pkgs/a.list", "pkgs/b.list", "c.list", "alias.list", "pkgs
 
 const nRegular = 3
 
-var pkgNames = []string{"alpha", "beta", "gamma-x", "delta-y-z"} // package (URL) ids 1..4, all version 1.0
+// package (URL) ids 1..4, all version 1.0; all names have the same length in every spelling, so a rewrite with
+// the same number of packages has the same byte length (and the tars carry mode 0644, mtime 0 throughout)
+var pkgNames = []string{"alpha", "bravo", "gam-x", "del-y"}
 
 // FileOp is what one layer does to one file.
 type FileOp struct {
@@ -160,6 +162,7 @@ type Case struct {
 	Stream       string     `json:"stream"`
 	ReadSymlinks bool       `json:"read_symlinks,omitempty"`
 	DirLink      bool       `json:"dir_link,omitempty"` // layer 0 also holds the directory symlink lnk -> pkgs
+	Plain        bool       `json:"plain,omitempty"`    // package names are written in their canonical spelling in every layer
 	History      []HEntry   `json:"history"`
 	Layers       [][]FileOp `json:"layers"` // v1 layers, in order
 	Obs          []PObs     `json:"obs,omitempty"`
@@ -171,7 +174,13 @@ func must(err error) {
 	}
 }
 
-func mkLayer(k int, ops []FileOp, dirLink bool) v1.Layer {
+func mkLayer(k int, ops []FileOp, dirLink, plain bool) v1.Layer {
+	sp := func(name string, variant int) string {
+		if plain {
+			return name
+		}
+		return spell(name, variant)
+	}
 	var buf bytes.Buffer
 	tw := tar.NewWriter(&buf)
 	if dirLink {
@@ -201,9 +210,9 @@ func mkLayer(k int, ops []FileOp, dirLink bool) v1.Layer {
 				case p < 0:
 					sb.WriteString("!cancel\n")
 				case o.Extra > 0:
-					fmt.Fprintf(&sb, "%s 1.0 @%s\n", spell(pkgNames[p], k+p), files[o.Extra-1])
+					fmt.Fprintf(&sb, "%s 1.0 @%s\n", sp(pkgNames[p], k+p), files[o.Extra-1])
 				default:
-					fmt.Fprintf(&sb, "%s 1.0\n", spell(pkgNames[p], k+p))
+					fmt.Fprintf(&sb, "%s 1.0\n", sp(pkgNames[p], k+p))
 				}
 			}
 			body := sb.String()
@@ -231,7 +240,7 @@ func runCase(c *Case) {
 	var ls []v1.Layer
 	diffNo := map[string]int{"": 0}
 	for k, ops := range c.Layers {
-		l := mkLayer(k, ops, c.DirLink && k == 0)
+		l := mkLayer(k, ops, c.DirLink && k == 0, c.Plain)
 		ls = append(ls, l)
 		d, err := l.DiffID()
 		must(err)
@@ -506,6 +515,51 @@ func genVariant(r *rand.Rand, n int, kind string) []*Case {
 	return out
 }
 
+// genSameLength: one file written by 3..5 layers (untouched and empty layers in between), every version
+// holding the same number of packages, so that all versions have the same byte length, mode and mtime
+// and differ only in which packages they name; with and without layer-dependent respelling.
+func genSameLength(r *rand.Rand, n int) []*Case {
+	var out []*Case
+	for i := 0; i < n; i++ {
+		c := &Case{Stream: "same-length", Plain: r.Intn(2) == 0}
+		m := 1 + r.Intn(2)
+		writes := 3 + r.Intn(3)
+		cmd := 1
+		for w := 0; w < writes; w++ {
+			perm := r.Perm(len(pkgNames))[:m]
+			if w > 0 && r.Intn(3) == 0 { // keep one package of the previous version
+				prev := c.Layers[len(c.Layers)-1]
+				for j := len(c.Layers) - 1; j >= 0; j-- {
+					if len(c.Layers[j]) > 0 {
+						prev = c.Layers[j]
+						break
+					}
+				}
+				if len(prev) > 0 && len(prev[0].Pkgs) > 0 {
+					perm[0] = prev[0].Pkgs[0]
+					if m == 2 && perm[1] == perm[0] {
+						perm[1] = (perm[0] + 1) % len(pkgNames)
+					}
+				}
+			}
+			c.Layers = append(c.Layers, []FileOp{{File: 0, Op: "write", Pkgs: perm}})
+			c.History = append(c.History, HEntry{Cmd: cmd})
+			cmd++
+			switch r.Intn(4) {
+			case 0: // an untouched layer
+				c.Layers = append(c.Layers, nil)
+				c.History = append(c.History, HEntry{Cmd: cmd})
+				cmd++
+			case 1: // an empty layer
+				c.History = append(c.History, HEntry{Empty: true, Cmd: cmd})
+				cmd++
+			}
+		}
+		out = append(out, c)
+	}
+	return out
+}
+
 // genExhaustive: every history of 1..maxLayers entries over one file and two packages; per entry:
 // empty layer | untouched | delete | write S for the four subsets S of {alpha, beta}.
 func genExhaustive(maxLayers int) []*Case {
@@ -598,6 +652,7 @@ func main() {
 	for _, kind := range []string{"multi-loc", "symlink", "cancel"} {
 		all = append(all, genVariant(r, *nvar, kind)...)
 	}
+	all = append(all, genSameLength(r, *nvar)...)
 	var cases []*Case
 	for i, c := range all {
 		if i%*parts == *part {
